@@ -46,6 +46,9 @@ import (
 	"verifharness/internal/pair"
 )
 
+// consecutive failed handshakes (a tree that cannot handshake is reported, not waited for)
+var handshakeFailures int
+
 func payloadOf(i int) []byte {
 	b := make([]byte, 5+i%7)
 	b[0] = 'P'
@@ -91,12 +94,18 @@ func executeRx(desc string) string {
 	} else {
 		scfg.ReplayWindow = cfg
 	}
+	if handshakeFailures >= 3 {
+		// the tree cannot complete a plain handshake: do not spend the watchdog time per case
+		return "handshake=failed"
+	}
 	c, s, ce, se, r := pair.DTLCP(ccfg, scfg, nil)
 	defer ce.Close()
 	defer se.Close()
 	if !r.OK() {
+		handshakeFailures++
 		return "handshake=failed"
 	}
+	handshakeFailures = 0
 	rcv, snd, re, sndEnd := s, c, se, ce
 	if role == "client" {
 		rcv, snd, re, sndEnd = c, s, ce, se
